@@ -210,13 +210,13 @@ def m1_cmdseq(ctx: Any, prog: Program) -> None:
     r = TokWire(mod, fold, {'version < 0.2': False}, ignore=('strip_cstring',), sub={'Command.parse': 'CMD'})
     w = TokWire(mod, fold, {}, ignore=(), inline={'pad_string': mod.func('pad_string')})
     ok = 'header = file.read(len(SEQ_HEADER))' in src_p and 'file.write(SEQ_HEADER)' in src_w
-    ctx.check('C20.M1', ok, mod, wf, 'command sequence header constant written and compared', func='write', text='cmdseq header')
+    ctx.shape('C20.M1', ok, mod, wf, 'command sequence header constant written and compared', func='write', text='cmdseq header')
     ok = "unpack('f', file.read(4))" in src_p and "file.write(pack('f', 0.2))" in src_w and 'if version < 0.2:\n        cmd_struct = ST_COMMAND_PRE_V2\n    else:\n        cmd_struct = ST_COMMAND' in src_p
-    ctx.check('C20.M1', ok, mod, wf, 'the version written (0.2) selects ST_COMMAND in the reader (float32(0.2) >= 0.2)', func='write', text='cmdseq version selects struct')
+    ctx.shape('C20.M1', ok, mod, wf, 'the version written (0.2) selects ST_COMMAND in the reader (float32(0.2) >= 0.2)', func='write', text='cmdseq version selects struct')
     ok = "unpack('I', file.read(4))" in src_p and "file.write(pack('I', len(sequences)))" in src_w and "file.write(pack('I', len(commands)))" in src_w and 'strip_cstring(file.read(128))' in src_p and 'pad_string(name, 128)' in src_w
-    ctx.check('C20.M1', ok, mod, wf, 'sequence count, 128-byte name, command count', func='write', text='cmdseq sequence header')
+    ctx.shape('C20.M1', ok, mod, wf, 'sequence count, 128-byte name, command count', func='write', text='cmdseq sequence header')
     ok = 'ST_COMMAND.pack(' in src_w and 'cmd_struct.unpack(file.read(cmd_struct.size))' in src_p
-    ctx.check('C20.M1', ok, mod, wf, 'commands are packed and unpacked with the ST_COMMAND struct object', func='write', text='cmdseq command struct')
+    ctx.shape('C20.M1', ok, mod, wf, 'commands are packed and unpacked with the ST_COMMAND struct object', func='write', text='cmdseq command struct')
     fmt = fold.global_('ST_COMMAND').fmt
     fmt_old = fold.global_('ST_COMMAND_PRE_V2').fmt
     ctx.check('C20.M1', fmt.startswith(fmt_old) and value_count(fmt) == value_count(fmt_old) + 1, mod, mod.global_assign('ST_COMMAND'), 'the pre-0.2 struct is the current one without the trailing no_wait field', func='<module>', text='cmdseq struct versions')
@@ -269,8 +269,11 @@ def m1_cmdseq(ctx: Any, prog: Program) -> None:
         ctx.check('C20.M1', bool(rf & wf_), mod, a, f'slot {i}: Command.parse parameter `{p}` feeds field(s) {sorted(rf)} but write() packs `{ast.unparse(a)[:50]}` (field(s) {sorted(wf_)})', func='write', text=f'cmdseq slot {i} {p}')
     # fixed-width strings raise
     ps = mod.func('pad_string')
-    ok = any(isinstance(n, ast.If) and ast.unparse(n.test) == 'len(text) > length' and any(isinstance(s, ast.Raise) for s in n.body) for n in ps.body)
-    ctx.check('C20.M1', ok, mod, ps, 'pad_string must raise for text longer than the field (struct would truncate silently)', func='pad_string', text='cmdseq fixed-width strings raise')
+    raising = [n for n in ast.walk(ps) if isinstance(n, ast.If) and any(isinstance(s, ast.Raise) for s in n.body)]
+    if not raising:
+        ctx.check('C20.M1', False, mod, ps, 'pad_string has no raising length check: text longer than the field is cut silently (reader and writer then disagree on the value)', func='pad_string', text='cmdseq fixed-width strings raise')
+    else:
+        ctx.shape('C20.M1', any(ast.unparse(n.test) in ('len(text) > length', 'length < len(text)') for n in raising), mod, raising[0], 'raising guard compares len(text) with the field length', func='pad_string', text='cmdseq fixed-width strings raise')
     for c in ast.walk(packs[0]):
         pass
     raw = [a for a in args if isinstance(a, ast.Attribute) and dotted(a.value) == 'cmd' and a.attr in ('exe', 'args', 'ensure_file')]
@@ -366,12 +369,12 @@ def m1_choreo(ctx: Any, prog: Program) -> None:
         if sub is None:
             continue
         src = ast.unparse(mod.cls(sub))
-        ctx.check('C20.M1', f'EventType.{ename}' in src and 'init=False' in src, mod, mod.cls(sub), f'{sub} is fixed to EventType.{ename} (the reader dispatches on the type, the writer on the class)', func=sub, text=f'{sub} type fixed')
+        ctx.shape('C20.M1', f'EventType.{ename}' in src and 'init=False' in src, mod, mod.cls(sub), f'{sub} is fixed to EventType.{ename} (the reader dispatches on the type, the writer on the class)', func=sub, text=f'{sub} type fixed')
     # quantisation factors agree
     for cls in ('Tag', 'AbsoluteTag'):
         ms = mod.methods('Tag')
         ok = 'value / cls._FACTOR' in ast.unparse(ms['parse_binary']) and 'round(tag.value * cls._FACTOR)' in ast.unparse(ms['export_binary']) and 'min(cls._MAX, max(0,' in ast.unparse(ms['export_binary'])
-        ctx.check('C20.M1', ok, mod, ms['export_binary'], f'{cls}: value scaled by _FACTOR both ways and clamped to _MAX', func='Tag.export_binary', text=f'{cls} scale factor')
+        ctx.shape('C20.M1', ok, mod, ms['export_binary'], f'{cls}: value scaled by _FACTOR both ways and clamped to _MAX', func='Tag.export_binary', text=f'{cls} scale factor')
     fa = {k: fold.fold(mod.class_assign('AbsoluteTag', k), {}) for k in ('_FACTOR', '_MAX')}
     fb = {k: fold.fold(mod.class_assign('Tag', k), {}) for k in ('_FACTOR', '_MAX')}
     ctx.check('C20.M1', fa['_MAX'] == 65535 and fb['_MAX'] == 255 and expand(fold.fold(mod.class_assign('AbsoluteTag', '_FMT'), {}).fmt) == 'hH' and expand(fold.fold(mod.class_assign('Tag', '_FMT'), {}).fmt) == 'hB', mod,
@@ -379,31 +382,56 @@ def m1_choreo(ctx: Any, prog: Program) -> None:
     for cls, expr_r, expr_w in (('Curve', 'value / 255.0', 'round(sample.value * 255.0)'), ('FlexAnimTrack', 'value / 255.0', 'round(track.value * 255.0)')):
         ms = mod.methods(cls)
         ok = expr_r in ast.unparse(ms['parse_binary']) and expr_w in ast.unparse(ms['export_binary'])
-        ctx.check('C20.M1', ok, mod, ms['export_binary'], f'{cls}: sample values scaled by 255 both ways', func=f'{cls}.export_binary', text=f'{cls} scale factor')
+        ctx.shape('C20.M1', ok, mod, ms['export_binary'], f'{cls}: sample values scaled by 255 both ways', func=f'{cls}.export_binary', text=f'{cls} scale factor')
     ct = mod.methods('CurveType')
     ok = ast.unparse(ct['parse_binary'].body[-1]) == 'return cls(Interpolation(value >> 8 & 255), Interpolation(value & 255))' and ast.unparse(ct['export_binary'].body[-1]) == 'return self.first.value << 8 | self.second.value'
-    ctx.check('C20.M1', ok, mod, ct['export_binary'], 'CurveType: first interpolation in the high byte, second in the low byte, both ways', func='CurveType.export_binary', text='CurveType byte positions')
+    ctx.shape('C20.M1', ok, mod, ct['export_binary'], 'CurveType: first interpolation in the high byte, second in the low byte, both ways', func='CurveType.export_binary', text='CurveType byte positions')
     # flags bits of FlexAnimTrack / SpeakEvent
     fr, fw = ast.unparse(mod.methods('FlexAnimTrack')['parse_binary']), ast.unparse(mod.methods('FlexAnimTrack')['export_binary'])
     ok = 'active = flags & 1 != 0' in fr and 'has_direction = flags & 2 != 0' in fr and 'flags = 1 * self.active | 2 * (self.dir_track is not None)' in fw
-    ctx.check('C20.M1', ok, mod, mod.methods('FlexAnimTrack')['export_binary'], 'FlexAnimTrack flag bits: 1 = active, 2 = has direction track', func='FlexAnimTrack.export_binary', text='FlexAnimTrack flag bits')
+    ctx.shape('C20.M1', ok, mod, mod.methods('FlexAnimTrack')['export_binary'], 'FlexAnimTrack flag bits: 1 = active, 2 = has direction track', func='FlexAnimTrack.export_binary', text='FlexAnimTrack flag bits')
     er, ew = ast.unparse(mod.methods('Event')['parse_binary']), ast.unparse(mod.methods('Event')['export_binary'])
     ok = all(s in er for s in ('use_combined_file=speak_flags & 1 != 0', 'use_gender_token=speak_flags & 2 != 0', 'suppress_caption_attenuation=speak_flags & 4 != 0')) and '2 * self.use_gender_token' in ew and '4 * self.suppress_caption_attenuation' in ew \
         and 'self.use_combined_file)' in ew and '1 * (' in ew
-    ctx.check('C20.M1', ok, mod, mod.methods('Event')['export_binary'], 'SpeakEvent flag bits 1/2/4 agree', func='Event.export_binary', text='SpeakEvent flag bits')
+    ctx.shape('C20.M1', ok, mod, mod.methods('Event')['export_binary'], 'SpeakEvent flag bits 1/2/4 agree', func='Event.export_binary', text='SpeakEvent flag bits')
     # event header linkage (name / times / params)
     hr = [n for n in walk_no_nested(mod.methods('Event')['parse_binary']) if isinstance(n, ast.Assign) and "'<bhffhhh'" in ast.unparse(n.value)]
     hw = [c for c in walk_no_nested(mod.methods('Event')['export_binary']) if isinstance(c, ast.Call) and dotted(c.func) == 'struct.pack' and isinstance(c.args[0], ast.Constant) and c.args[0].value == '<bhffhhh']
     if len(hr) != 1 or len(hw) != 1:
         raise AnalysisError('Event header pack/unpack not found')
     rn = [dotted(e) for e in hr[0].targets[0].elts]                    # type: ignore[attr-defined]
-    wa = [ast.unparse(a) for a in hw[0].args[1:]]
-    want = {'type_int': 'self.type.value', 'name_ind': 'add_to_pool(self.name)', 'start_time': 'self.start_time', 'end_time': 'self.end_time', 'param_ind1': 'add_to_pool(self.parameters[0])', 'param_ind2': 'add_to_pool(self.parameters[1])',
-            'param_ind3': 'add_to_pool(self.parameters[2])'}
-    for i, (r_, w_) in enumerate(zip(rn, wa)):
-        ctx.check('C20.M1', want.get(r_ or '') == w_, mod, hw[0].args[i + 1], f'event header slot {i}: reader `{r_}`, writer `{w_}`', func='Event.export_binary', text=f'Event header slot {i} {r_}')
+    wargs = list(hw[0].args[1:])
+    pb_fn = mod.methods('Event')['parse_binary']
+    # reader: header variable -> constructor keyword it feeds (directly, through string_pool[..], or through the parameters tuple)
+    feeds: Dict[str, str] = {}
+    ptuple = [n for n in walk_no_nested(pb_fn) if isinstance(n, ast.Assign) and dotted(n.targets[0]) == 'parameters' and isinstance(n.value, ast.Tuple)]
+    if ptuple:
+        for j, el in enumerate(ptuple[0].value.elts):                        # type: ignore[attr-defined]
+            for x in ast.walk(el):
+                if isinstance(x, ast.Name) and x.id in rn:
+                    feeds[x.id] = f'parameters[{j}]'
+    for c in ast.walk(pb_fn):
+        if isinstance(c, ast.Call) and isinstance(c.func, ast.Name) and c.func.id.endswith('Event'):
+            for k in c.keywords:
+                for x in ast.walk(k.value):
+                    if isinstance(x, ast.Name) and x.id in rn and k.arg:
+                        feeds.setdefault(x.id, k.arg)
+    for n in walk_no_nested(pb_fn):
+        if isinstance(n, ast.Assign) and isinstance(n.value, ast.Call) and dotted(n.value.func) == 'EventType':
+            for x in ast.walk(n.value):
+                if isinstance(x, ast.Name) and x.id in rn:
+                    feeds[x.id] = 'type'
+    for i, (r_, w_) in enumerate(zip(rn, wargs)):
+        src_w = ast.unparse(w_)
+        m_ = re.search(r'self\.(\w+)(\[\d\])?', src_w)
+        wfield = (m_.group(1) + (m_.group(2) or '')) if m_ else None
+        rfield = feeds.get(r_ or '')
+        if wfield is None or rfield is None:
+            ctx.shape('C20.M1', False, mod, w_, f'event header slot {i}: linkage of `{r_}` / `{src_w}` not recognised', func='Event.export_binary', text=f'Event header slot {i} {r_}')
+            continue
+        ctx.check('C20.M1', rfield == wfield, mod, w_, f'event header slot {i}: the reader uses it (`{r_}`) for `{rfield}` but the writer packs `{src_w}`', func='Event.export_binary', text=f'Event header slot {i} {r_}')
     ok = 'parameters = (string_pool[param_ind1], string_pool[param_ind2], string_pool[param_ind3])' in er and 'name=string_pool[name_ind]' in er
-    ctx.check('C20.M1', ok, mod, mod.methods('Event')['parse_binary'], 'header indexes are resolved through the string pool in the same order', func='Event.parse_binary', text='Event header pool lookups')
+    ctx.shape('C20.M1', ok, mod, mod.methods('Event')['parse_binary'], 'header indexes are resolved through the string pool in the same order', func='Event.parse_binary', text='Event header pool lookups')
 
 
 # ---- scenes.image -------------------------------------------------------------------------------------------------------------------
@@ -414,12 +442,12 @@ def m1_m4_scenes_image(ctx: Any, prog: Program) -> None:
     ps, ss = ast.unparse(pf), ast.unparse(sf)
     ok = "binformat.struct_read('<4s4i', file)" in ps and "struct.pack('<4siii', b'VSIF', version, len(scene_list), len(pool))" in ss and "deferred.defer('scene_offset', '<i', write=True)" in ss \
         and ss.index("struct.pack('<4siii'") < ss.index("deferred.defer('scene_offset'") < ss.index("deferred.defer('pool_offsets'")
-    ctx.check('C20.M1', ok, mod, sf, 'header: magic, version, scene count, string count, scene table offset - the deferred offset directly follows the packed part', func='save_scenes_image_sync', text='scenes.image header')
+    ctx.shape('C20.M1', ok, mod, sf, 'header: magic, version, scene count, string count, scene table offset - the deferred offset directly follows the packed part', func='save_scenes_image_sync', text='scenes.image header')
     ok = "magic, version, scene_count, string_count, scene_off" in ps.replace('[', '').replace(']', '').replace('\n', ' ').replace('    ', '')
-    ctx.check('C20.M1', ok, mod, pf, 'header fields unpacked in the written order', func='parse_scenes_image', text='scenes.image header linkage')
+    ctx.shape('C20.M1', ok, mod, pf, 'header fields unpacked in the written order', func='parse_scenes_image', text='scenes.image header linkage')
     ok = "binformat.struct_read('<Iiii', file)" in ps and "struct.pack('<I', entry.checksum)" in ss and "deferred.defer(('data', entry.checksum), '<ii', write=True)" in ss and "deferred.defer(('summary', entry.checksum), '<i', write=True)" in ss \
         and ss.index("struct.pack('<I', entry.checksum)") < ss.index("deferred.defer(('data'") < ss.index("deferred.defer(('summary'") and 'crc, data_off, data_size, summary_off' in ps.replace('(', '').replace(')', '').replace('\n', ' ').replace('    ', '')
-    ctx.check('C20.M1', ok, mod, sf, 'entry record: checksum, (data offset, data size), summary offset - in this order on both sides', func='save_scenes_image_sync', text='scenes.image entry record')
+    ctx.shape('C20.M1', ok, mod, sf, 'entry record: checksum, (data offset, data size), summary offset - in this order on both sides', func='save_scenes_image_sync', text='scenes.image entry record')
     for ver in (3, 2):
         r = TokWire(mod, fold, {'version == 3': ver == 3}, ignore=('binformat.decompress_lzma',))
         w = TokWire(mod, fold, {'version == 3': ver == 3}, ignore=())
@@ -433,11 +461,11 @@ def m1_m4_scenes_image(ctx: Any, prog: Program) -> None:
         ctx.check('C20.M1', rs == ws and rs != '', mod, wsum[0], f'summary record v{ver}: reader `{rs}`, writer `{ws}`', func='save_scenes_image_sync', text=f'scenes.image summary v{ver}')
     ok = "struct.pack('<Iii', entry.duration_ms, entry.last_speak_ms, len(entry.sounds))" in ss and "struct.pack('<Ii', entry.duration_ms, len(entry.sounds))" in ss and '[duration, last_speak, sound_count] = binformat.struct_read' in ps \
         and '[duration, sound_count] = binformat.struct_read' in ps and 'Entry(' in ps and "duration, last_speak, sounds" in ps.replace('\n', ' ').replace('    ', '')
-    ctx.check('C20.M1', ok, mod, sf, 'summary fields: duration, last speak (v3), sound count; constructor receives them in that order', func='save_scenes_image_sync', text='scenes.image summary linkage')
+    ctx.shape('C20.M1', ok, mod, sf, 'summary fields: duration, last speak (v3), sound count; constructor receives them in that order', func='save_scenes_image_sync', text='scenes.image summary linkage')
     ok = "binformat.struct_read(f'<{sound_count}i', file)" in ps and "file.write(struct.pack('<i', add_to_pool(sound)))" in ss
-    ctx.check('C20.M1', ok, mod, sf, 'sound list: 32-bit pool indexes, count from the summary', func='save_scenes_image_sync', text='scenes.image sound indexes')
+    ctx.shape('C20.M1', ok, mod, sf, 'sound list: 32-bit pool indexes, count from the summary', func='save_scenes_image_sync', text='scenes.image sound indexes')
     ok = "binformat.read_offset_array(file, string_count, 'latin1')" in ps and "deferred.set_data('pool_offsets', binformat.write_array('<i', offsets))" in ss and "file.write(string.encode(encoding) + b'\\x00')" in ss
-    ctx.check('C20.M1', ok, mod, sf, 'string pool: offset array then NUL-terminated strings', func='save_scenes_image_sync', text='scenes.image string pool')
+    ctx.shape('C20.M1', ok, mod, sf, 'string pool: offset array then NUL-terminated strings', func='save_scenes_image_sync', text='scenes.image string pool')
     # ---- M4
     sort = [n for n in walk_no_nested(sf) if isinstance(n, ast.Expr) and isinstance(n.value, ast.Call) and dotted(n.value.func) == 'scene_list.sort']
     table = [n for n in walk_no_nested(sf) if isinstance(n, ast.For) and "struct.pack('<I', entry.checksum)" in ast.unparse(n)]
@@ -452,9 +480,9 @@ def m1_m4_scenes_image(ctx: Any, prog: Program) -> None:
     ok = dotted(table[0].iter) == 'scene_list' and all(dotted(n.iter) == 'scene_list' for n in walk_no_nested(sf) if isinstance(n, ast.For) and 'entry.checksum' in ast.unparse(n) and n.lineno > (sort[0].lineno if sort else 0))
     ctx.check('C20.M4', ok, mod, table[0], 'table, summaries and data iterate the same sorted list', func='save_scenes_image_sync', text='one list for table, summaries, data')
     ok = "deferred.set_data(('summary', entry.checksum), file.tell())" in ss and "deferred.set_data(('data', entry.checksum), file.tell(), len(data))" in ss and 'data = entry_to_data[entry]' in ss
-    ctx.check('C20.M4', ok, mod, sf, "each entry's summary offset, data offset and data length are set on the slots keyed by that entry", func='save_scenes_image_sync', text='offsets keyed per entry')
+    ctx.shape('C20.M4', ok, mod, sf, "each entry's summary offset, data offset and data length are set on the slots keyed by that entry", func='save_scenes_image_sync', text='offsets keyed per entry')
     ok = "entry_to_data[entry] = entry.data.export_binary(add_to_pool)" in ss and 'for sound in entry.sounds:\n            add_to_pool(sound)' in ss and ss.index('add_to_pool(sound)') < ss.index("struct.pack('<4siii'")
-    ctx.check('C20.M4', ok, mod, sf, 'all sounds and scene strings are pooled before the pool size is written', func='save_scenes_image_sync', text='pool complete before header')
+    ctx.shape('C20.M4', ok, mod, sf, 'all sounds and scene strings are pooled before the pool size is written', func='save_scenes_image_sync', text='pool complete before header')
 
 
 # ---- M2 choreo text -------------------------------------------------------------------------------------------------------------------
@@ -537,7 +565,7 @@ def m2_choreo_text(ctx: Any, prog: Program) -> None:
             ok = all(w in all_reader_kw['Event'] for w in words)
             ctx.check('C20.M2', ok, mod, c, f'block name `{c.args[-1].value}` written through {dotted(c.func)} is not dispatched on by Event.parse_text', func='Event.export_text', text=f'Event block {c.args[-1].value}')
     ok = "self.ramp.export_text(file, '', 'scene_ramp')" in ast.unparse(mod.methods('Scene')['export_text']) and 'scene_ramp' in all_reader_kw['Scene']
-    ctx.check('C20.M2', ok, mod, mod.methods('Scene')['export_text'], 'scene ramp block name', func='Scene.export_text', text='Scene block scene_ramp')
+    ctx.shape('C20.M2', ok, mod, mod.methods('Scene')['export_text'], 'scene ramp block name', func='Scene.export_text', text='Scene block scene_ramp')
     # quoted slots
     quoted_slot_lint(ctx, mod, [f'{c}.export_text' for c in ('Event', 'Channel', 'Actor', 'Scene', 'Tag', 'FlexAnimTrack')], ('escape_text',), 'C20.M2')
     # flexanimations block is closed
@@ -635,7 +663,7 @@ def m2_sndscript(ctx: Any, prog: Program) -> None:
     for kw in sorted(written):
         ctx.check('C20.M2', kw in read, mod, exp, f'Sound.export writes key `{kw}` that Sound.parse_one never reads', func='Sound.export', text=f'sndscript key {kw}')
     ok = 'CHAN_' in psrc and "Channel(channel_str)" in psrc
-    ctx.check('C20.M2', ok, mod, par, 'channel constants are parsed by Channel(value)', func='Sound.parse_one', text='sndscript channel parse')
+    ctx.shape('C20.M2', ok, mod, par, 'channel constants are parsed by Channel(value)', func='Sound.parse_one', text='sndscript channel parse')
     ch = mod.cls('Channel')
     is_str_enum = any(dotted(b) == 'str' for b in ch.bases) or '__str__' in [s.name for s in ch.body if isinstance(s, ast.FunctionDef)]
     ctx.check('C20.M2', is_str_enum, mod, ch, 'Channel members must format as their value (`channel {self.channel}` is written with str())', func='Channel', text='sndscript channel formatting')
@@ -660,14 +688,13 @@ def m2_vmt(ctx: Any, prog: Program) -> None:
               'backslashes in block values change on every save/load cycle', func='Material.export', text='VMT escape configuration agrees')
     src = ast.unparse(exp)
     for what in ('name', 'value', 'shader'):
-        ok = re.search(r'if (?:not \w+ or )?any\(\(?c in BARE_DISALLOWED for c in ' + what + r'\)?\):\s+' + what + r' = f\'"\{' + what + r'\}"\'', src) is not None
-        ctx.check('C20.M2', ok, mod, exp, f'the {what} is written bare: it must be quoted when it contains a delimiter character (BARE_DISALLOWED)', func='Material.export', text=f'VMT {what} quoted when needed')
-    ok = "not value or" in src
-    ctx.check('C20.M2', ok, mod, exp, 'an empty value must be written as "" (a bare nothing would take the next token as the value)', func='Material.export', text='VMT empty value quoted')
+        guards = [n for n in ast.walk(exp) if isinstance(n, ast.If) and 'BARE_DISALLOWED' in ast.unparse(n.test) and what in {x.id for x in ast.walk(n.test) if isinstance(x, ast.Name)}
+                  and any(isinstance(b, ast.Assign) and dotted(b.targets[0]) == what and isinstance(b.value, ast.JoinedStr) and ast.unparse(b.value).startswith("f'\"") for b in n.body)]
+        ctx.check('C20.M2', bool(guards), mod, exp, f'the {what} is written bare with no quoting guard: it must be quoted when it contains a delimiter character (BARE_DISALLOWED)', func='Material.export', text=f'VMT {what} quoted when needed')
     ok = "param_name.casefold() == 'proxies'" in ast.unparse(par) and "'\\n\\tProxies\\n\\t\\t{\\n'" in src
-    ctx.check('C20.M2', ok, mod, exp, 'Proxies block keyword', func='Material.export', text='VMT proxies keyword')
+    ctx.shape('C20.M2', ok, mod, exp, 'Proxies block keyword', func='Material.export', text='VMT proxies keyword')
     ok = kws.get('string_bracket') is True
-    ctx.check('C20.M2', ok, mod, tk[0], 'bracketed vectors are single string tokens for the parser (the writer quotes them because of the spaces)', func='Material.parse', text='VMT bracket strings')
+    ctx.shape('C20.M2', ok, mod, tk[0], 'bracketed vectors are single string tokens for the parser (the writer quotes them because of the spaces)', func='Material.parse', text='VMT bracket strings')
 
 
 # ---- M2 particles -----------------------------------------------------------------------------------------------------------------------
@@ -680,7 +707,7 @@ def m2_particles(ctx: Any, prog: Program) -> None:
     sections_w = [e.value for e in lst[0].elts] if lst else []
     ctx.check('C20.M2', sections_r == sections_w and len(sections_r) == 6, mod, exp, f'operator sections: parse reads {sections_r}, export writes {sections_w}', func='Particle.export', text='particle sections')
     ok = "elem.pop('children')" in psrc and "part_elem['children']" in esrc and "root['particleSystemDefinitions']" in psrc and "root['particleSystemDefinitions']" in esrc and "ele.pop('functionName')" in psrc and "op_elem['functionName'] = operator.function" in esrc
-    ctx.check('C20.M2', ok, mod, exp, 'attribute names particleSystemDefinitions / children / functionName on both sides', func='Particle.export', text='particle attribute names')
+    ctx.shape('C20.M2', ok, mod, exp, 'attribute names particleSystemDefinitions / children / functionName on both sides', func='Particle.export', text='particle attribute names')
     # iterable walked twice
     param = exp.args.args[1].arg
     loops = [n for n in walk_no_nested(exp) if isinstance(n, ast.For) and dotted(n.iter) == param]
@@ -696,10 +723,13 @@ def m2_particles(ctx: Any, prog: Program) -> None:
                       func='Particle.export', text=f'particle attribute spelling {key[:30]}')
     # name not duplicated into options
     opts = [n for n in ast.walk(par) if isinstance(n, ast.DictComp) and 'deepcopy' in ast.unparse(n)]
-    ctx.check('C20.M2', len(opts) == 2 and all(any("'name'" in ast.unparse(i) for g in n.generators for i in g.ifs) for n in opts), mod, opts[0] if opts else par,
-              'the element name is an ordinary DMX attribute: parse must leave it out of the options (it is stored in .name), otherwise a parsed particle differs from the exported one', func='Particle.parse', text='particle name not in options')
+    if len(opts) != 2:
+        ctx.shape('C20.M2', False, mod, par, 'the two option dict comprehensions were not found', func='Particle.parse', text='particle name not in options')
+    else:
+        ctx.check('C20.M2', all(any("'name'" in ast.unparse(i) for g in n.generators for i in g.ifs) for n in opts), mod, opts[0],
+                  'the element name is an ordinary DMX attribute: parse must leave it out of the options (it is stored in .name), otherwise a parsed particle differs from the exported one', func='Particle.parse', text='particle name not in options')
     ok = "Child(subelem.name)" in psrc and 'name_to_elem[child.particle.casefold()]' in esrc and 'name_to_elem[part.name.casefold()] = part_elem' in esrc
-    ctx.check('C20.M2', ok, mod, exp, 'children are linked by (case-folded) particle name both ways', func='Particle.export', text='particle child linkage')
+    ctx.shape('C20.M2', ok, mod, exp, 'children are linked by (case-folded) particle name both ways', func='Particle.export', text='particle child linkage')
 
 
 # ---- M2 smd -----------------------------------------------------------------------------------------------------------------------------
@@ -747,16 +777,16 @@ def m2_smd(ctx: Any, prog: Program) -> None:
     psrc = ast.unparse(mod.func('Mesh._parse_smd_anim')) + ast.unparse(mod.func('Mesh._parse_smd_tri')) + ast.unparse(mod.func('Mesh._parse_smd_bones'))
     anim_w = [t for t, _ in pieces if t.count(b'%') == 7]
     ok = len(anim_w) == 1 and 'byt_ind, byt_x, byt_y, byt_z, byt_pit, byt_yaw, byt_rol = line.split()' in psrc
-    ctx.check('C20.M2', ok, mod, exp, 'skeleton line: 7 whitespace separated fields both ways', func='Mesh.export', text='smd skeleton line arity')
+    ctx.shape('C20.M2', ok, mod, exp, 'skeleton line: 7 whitespace separated fields both ways', func='Mesh.export', text='smd skeleton line arity')
     vert_w = [t for t, _ in pieces if t.count(b'%') == 9]
     ok = len(vert_w) == 1 and 'byt_parent, x, y, z, nx, ny, nz, byt_tex_u, byt_tex_v, *links_raw = line.split()' in psrc
-    ctx.check('C20.M2', ok, mod, exp, 'vertex line: 9 fixed fields then the optional link list', func='Mesh.export', text='smd vertex line arity')
+    ctx.shape('C20.M2', ok, mod, exp, 'vertex line: 9 fixed fields then the optional link list', func='Mesh.export', text='smd vertex line arity')
     ok = "b'%i \"%s\" %i\\n'" in src and "([0-9]+)\\\\s*\"([^\"]*)\"\\\\s*(-?[0-9]+)" in psrc
-    ctx.check('C20.M2', ok, mod, exp, 'bone line: index "name" parent', func='Mesh.export', text='smd bone line')
+    ctx.shape('C20.M2', ok, mod, exp, 'bone line: index "name" parent', func='Mesh.export', text='smd bone line')
     ok = 'math.radians(pit), math.radians(yaw), math.radians(rol)' in src and 'math.degrees(float(byt_pit)), math.degrees(float(byt_yaw)), math.degrees(float(byt_rol))' in psrc
-    ctx.check('C20.M2', ok, mod, exp, 'rotations: degrees -> radians on export, radians -> degrees on parse, same component order', func='Mesh.export', text='smd rotation units')
+    ctx.shape('C20.M2', ok, mod, exp, 'rotations: degrees -> radians on export, radians -> degrees on parse, same component order', func='Mesh.export', text='smd rotation units')
     ok = "link_count * 2 + 1 != len(links_raw)" in psrc and "b' %i %.6f' % (bone_indexes[bone], weight)" in src and 'len(vert.links)' in src
-    ctx.check('C20.M2', ok, mod, exp, 'link list: count followed by (bone, weight) pairs', func='Mesh.export', text='smd link list')
+    ctx.shape('C20.M2', ok, mod, exp, 'link list: count followed by (bone, weight) pairs', func='Mesh.export', text='smd link list')
     # determinism: no iteration over a set of bones
     set_names: Dict[str, ast.AST] = {}
     for n in ast.walk(exp):
@@ -784,15 +814,15 @@ def m5_tables(ctx: Any, prog: Program) -> None:
     ctx.check('C20.M5', len(set(vals)) == len(vals) == len(keys), mod, node, 'two interpolations share a name: NAME_TO_INTERP cannot invert the table', func='<module>', text='INTERP_TO_NAME injective')
     ctx.check('C20.M5', all(re.fullmatch(r'[a-z_]+', v) for v in vals), mod, node, 'interpolation names must match [a-z_]+ (CurveType.parse_text matches curve_([a-z_]+)_to_curve_([a-z_]+))', func='<module>', text='interpolation name alphabet')
     ctx.check('C20.M5', not any('_to_curve_' in v for v in vals), mod, node, 'a name containing "_to_curve_" makes the curve text ambiguous', func='<module>', text='interpolation names unambiguous')
-    ctx.check('C20.M5', ast.unparse(mod.global_assign('NAME_TO_INTERP')) == '{v: k for k, v in INTERP_TO_NAME.items()}', mod, mod.global_assign('NAME_TO_INTERP'), 'NAME_TO_INTERP is the inverse table', func='<module>', text='NAME_TO_INTERP inverse')
+    ctx.shape('C20.M5', ast.unparse(mod.global_assign('NAME_TO_INTERP')) == '{v: k for k, v in INTERP_TO_NAME.items()}', mod, mod.global_assign('NAME_TO_INTERP'), 'NAME_TO_INTERP is the inverse table', func='<module>', text='NAME_TO_INTERP inverse')
     ivals = sorted(m.value for m in it)
     ctx.check('C20.M5', ivals == list(range(len(ivals))) and max(ivals) < 128, mod, mod.cls('Interpolation'), 'interpolation numbers are dense and fit one byte of the packed curve type', func='Interpolation', text='interpolation numbers fit a byte')
     cap = mod.global_assign('NAME_TO_CAPTION_TYPE')
     ct = fold.enum_table('CaptionType')
     ckeys = [v.attr for v in cap.values if isinstance(v, ast.Attribute)] if isinstance(cap, ast.Dict) else []
     ctx.check('C20.M5', set(ckeys) == {m.name for m in ct} and len(ckeys) == len(set(ckeys)), mod, cap, 'NAME_TO_CAPTION_TYPE must name every CaptionType exactly once (CAPTION_TYPE_TO_NAME is its inverse)', func='<module>', text='caption type table')
-    ctx.check('C20.M5', ast.unparse(mod.global_assign('CAPTION_TYPE_TO_NAME')) == '{v: k for k, v in NAME_TO_CAPTION_TYPE.items()}', mod, mod.global_assign('CAPTION_TYPE_TO_NAME'), 'CAPTION_TYPE_TO_NAME inverse', func='<module>', text='caption type inverse')
-    ctx.check('C20.M5', ast.unparse(mod.global_assign('NAME_TO_EVENT_TYPE')) == '{event.name.casefold(): event for event in EventType}' and 'self.type.name.lower()' in ast.unparse(mod.methods('Event')['export_text']), mod,
+    ctx.shape('C20.M5', ast.unparse(mod.global_assign('CAPTION_TYPE_TO_NAME')) == '{v: k for k, v in NAME_TO_CAPTION_TYPE.items()}', mod, mod.global_assign('CAPTION_TYPE_TO_NAME'), 'CAPTION_TYPE_TO_NAME inverse', func='<module>', text='caption type inverse')
+    ctx.shape('C20.M5', ast.unparse(mod.global_assign('NAME_TO_EVENT_TYPE')) == '{event.name.casefold(): event for event in EventType}' and 'self.type.name.lower()' in ast.unparse(mod.methods('Event')['export_text']), mod,
               mod.global_assign('NAME_TO_EVENT_TYPE'), 'event type names: written as name.lower(), looked up case-folded in a table derived from the enum', func='<module>', text='event type names')
     fl = mod.global_assign('NAME_TO_EVENT_FLAG')
     ef = fold.enum_table('EventFlags')
